@@ -45,8 +45,12 @@ static int k_open_count(void)
 	return n;
 }
 
+#ifndef VERIF_ON_CLOSE
+#define VERIF_ON_CLOSE(fd) do { } while (0)
+#endif
 int STUB(close)(int fd)
 {
+	VERIF_ON_CLOSE(fd);
 	k_closes++;
 	if (fd < 0 || fd >= KFD_MAX || !k_fd[fd].open) {
 		k_bad_close++;
